@@ -46,14 +46,18 @@ def make_env(root):
     sp = subprocess.run([os.path.join(v, "bin", "python"), "-c", "import sysconfig;print(sysconfig.get_paths()['purelib'])"], capture_output=True, text=True).stdout.strip()
     write(os.path.join(sp, "zz_deps.pth"), "import site; site.addsitedir('/venv/lib/python3.12/site-packages')\n")
     base = os.path.join(sp, PKG)
+    make_pkg(base, PKG)
+    return os.path.join(v, "bin", "python"), base
+
+
+def make_pkg(base, pkg):
     names = [n for n, _ in HIER]
-    write(os.path.join(base, "__init__.py"), "from {p}.gen import *\n\n__author__ = 'a'\n__version__ = '0.0.0'\n__all__ = {a!r}\n".format(p=PKG, a=["__author__", "__version__"] + names))
-    write(os.path.join(base, "gen", "__init__.py"), "".join("from {p}.gen.{m} import {n}\n".format(p=PKG, m=".".join(f), n=n) for n, f in HIER) + "\n__all__ = {!r}\n".format(names))
+    write(os.path.join(base, "__init__.py"), "from {p}.gen import *\n\n__author__ = 'a'\n__version__ = '0.0.0'\n__all__ = {a!r}\n".format(p=pkg, a=["__author__", "__version__"] + names))
+    write(os.path.join(base, "gen", "__init__.py"), "".join("from {p}.gen.{m} import {n}\n".format(p=pkg, m=".".join(f), n=n) for n, f in HIER) + "\n__all__ = {!r}\n".format(names))
     for n, f in HIER:
         cls = n.title() + "Class"
-        write(os.path.join(base, "gen", *f, "__init__.py"), "from {p}.gen.{m}.{n} import {c}\n\n__all__ = [{c!r}]\n".format(p=PKG, m=".".join(f), n=n, c=cls))
+        write(os.path.join(base, "gen", *f, "__init__.py"), "from {p}.gen.{m}.{n} import {c}\n\n__all__ = [{c!r}]\n".format(p=pkg, m=".".join(f), n=n, c=cls))
         write(os.path.join(base, "gen", *f, n + ".py"), CLASS_SRC.format(cls=cls))
-    return os.path.join(v, "bin", "python"), base
 
 
 def snapshot(root):
@@ -77,8 +81,8 @@ def diff(b, a):
     return out
 
 
-def run_exmod(py, args, cwd):
-    env = dict(os.environ, PYTHONPATH=REPO, PYTHONDONTWRITEBYTECODE="1")
+def run_exmod(py, args, cwd, extra_path=None):
+    env = dict(os.environ, PYTHONPATH=REPO + ((os.pathsep + extra_path) if extra_path else ""), PYTHONDONTWRITEBYTECODE="1")
     r = subprocess.run([py, "-m", "cdd", "exmod"] + args, capture_output=True, text=True, env=env, cwd=cwd, timeout=300)
     return r.returncode, (r.stdout + r.stderr)[-600:]
 
@@ -198,6 +202,38 @@ def main(tier):
                     gen = [x for x in d if x.endswith(".py") and "sqlalchemy_mod" not in x and os.path.isfile(x.split(" ", 1)[1]) and _defines_symbols(x.split(" ", 1)[1])]
                     if gen:
                         res["failures"].append(dict(case, what="modules excluded by blacklist / not in whitelist produced output: %s" % gen[:3]))
+        # ---- the same package in a plain directory on PYTHONPATH (not installed): its files are reachable by absolute path
+        plain_root = os.path.join(root, "plain")
+        PKG2 = "cddvcplain"
+        base2 = os.path.join(plain_root, PKG2)
+        make_pkg(base2, PKG2)
+        all_emits = ["class", "function", "sqlalchemy", "sqlalchemy_table", "json_schema"]
+        for emit, dry, recursive in itertools.product(all_emits, (False, True), (False, True)):
+            if tier == "quick" and (dry or recursive) and emit not in ("class", "sqlalchemy_table"):
+                continue
+            k += 1
+            out = os.path.join(root, "workp%d" % k, "exposed")
+            args = ["--module", PKG2 + ".gen", "--emit", emit, "--output-directory", out] + (["--dry-run"] if dry else []) + (["--recursive"] if recursive else [])
+            before = snapshot(root)
+            rc, tail = run_exmod(py, args, root, extra_path=plain_root)
+            d = diff(before, snapshot(root))
+            res["runs"] += 1
+            case = {"emit": emit, "recursive": recursive, "dry_run": dry, "preexisting_out": False, "lists": "", "rc": rc, "placement": "plain directory on PYTHONPATH"}
+            if rc != 0:
+                res["crashes"] += 1
+            if dry and d:
+                res["failures"].append(dict(case, what="--dry-run changed the file system: %s" % [x.replace(root, "<tmp>") for x in d[:4]]))
+                continue
+            src_touched = [x for x in d if x.split(" ", 1)[1].startswith(base2)]
+            if src_touched:
+                res["failures"].append(dict(case, what="source package modified: %s" % [x.replace(root, "<tmp>") for x in src_touched[:3]]))
+            outside = [x for x in d if not x.split(" ", 1)[1].startswith(out) and x.split(" ", 1)[1] != os.path.dirname(out) and not x.split(" ", 1)[1].startswith(base2)]
+            if not dry and outside:
+                res["failures"].append(dict(case, what="real run touched paths outside the output directory: %s" % [x.replace(root, "<tmp>") for x in outside[:4]]))
+            if not dry and rc == 0 and os.path.isdir(out):
+                bad = check_generated(out)
+                if bad:
+                    res["failures"].append(dict(case, what="generated output: %s" % bad[:3]))
     finally:
         shutil.rmtree(root, ignore_errors=True)
     print(json.dumps(res))
